@@ -41,7 +41,8 @@ def global_modes():
         ("prefs_id", id(cssutils.ser.prefs)),
         ("prefs", tuple(sorted((k, repr(v)) for k, v in vars(cssutils.ser.prefs).items()))),
         ("profiles", tuple(prof.profiles)),
-        ("defaultProfiles", repr(prof.defaultProfiles)),
+        # (the stored value, read without going through the getter: a getter that caches would hide its own effect)
+        ("defaultProfiles", repr(getattr(prof, "_defaultProfiles", None))),
         ("knownNames", tuple(sorted(prof.knownNames))),
     )
 
